@@ -156,18 +156,21 @@ def c17_jobs(c, programs):
     for unique in (False, True):
         for lb in (False, True):
             cf = cfgd(2, unique, lb)
-            for pn in (("split", "holes") if q else ("empty", "split", "deep", "holes")):
+            if q:
+                pns = ("holes",) if lb else ("split",)
+            else:
+                pns = ("empty", "split", "deep", "holes")
+            for pn in pns:
                 jobs.append(dict(family="explore", name="explore/%s/%s" % (cname(cf), pn), kind="explore", cfg=cf,
                                  prefix=PREFIXES[pn], alphabet=explore_alphabet([1, 2, 3] if not q else [1, 2], full=not q),
                                  depth=2))
     if not q:
         for unique in (False, True):
             for lb in (False, True):
-                for slot in (2, 4):
-                    cf = cfgd(slot, unique, lb)
-                    jobs.append(dict(family="explore3", name="explore3/%s" % cname(cf), kind="explore", cfg=cf,
-                                     prefix=PREFIXES["deep"] if slot == 2 else PREFIXES["holes"],
-                                     alphabet=explore_alphabet([1, 2], full=False), depth=3))
+                cf = cfgd(2, unique, lb)
+                jobs.append(dict(family="explore3", name="explore3/%s" % cname(cf), kind="explore", cfg=cf,
+                                 prefix=PREFIXES["holes"] if lb else PREFIXES["deep"],
+                                 alphabet=explore_alphabet([1, 2], full=False), depth=3))
     # seeded random long programs: grow / mixed / delete-heavy / regrow phases, 10..20 keys with heavy duplicates
     nseeds = 1 if q else 4
     for slot in slots:
@@ -175,20 +178,20 @@ def c17_jobs(c, programs):
             for lb in (False, True):
                 cf = cfgd(slot, unique, lb)
                 for i in range(nseeds):
-                    jobs.append(rand_job(c, "rand", cf, i, ops=c.pick(260, 420)))
+                    jobs.append(rand_job(c, "rand", cf, i, ops=c.pick(240, 420)))
     # key updates: custom comparer, keys 10k+t compare equal for equal k
     for slot in ((2, 4) if q else (2, 4, 8)):
         for unique in (False, True):
             cf = cfgd(slot, unique, slot == 4, gran=10)
             for i in range(nseeds):
-                jobs.append(rand_job(c, "tagged", cf, i, ops=c.pick(220, 360), keys=(None if unique else 8)))
+                jobs.append(rand_job(c, "tagged", cf, i, ops=c.pick(200, 360), keys=(None if unique else 8)))
     # key 0 and negative keys (finding D1 lives here)
     for unique in (False, True):
         for i in range(c.pick(2, 6)):
             cf = cfgd(2 if i % 2 == 0 else 4, unique, i % 3 == 1)
-            jobs.append(rand_job(c, "zero", cf, i, ops=c.pick(160, 300), scale=0.5, lo=-3, keys=7))
+            jobs.append(rand_job(c, "zero", cf, i, ops=c.pick(140, 300), scale=0.5, lo=-3, keys=7))
     # big populations: several levels also with wide nodes; contents compared every obs-th call
-    bigs = [(8, 160), (24, 130)] if q else [(6, 300), (8, 400), (24, 700), (24, 420)]
+    bigs = [(8, 150), (24, 110)] if q else [(6, 300), (8, 400), (24, 700), (24, 420)]
     for bi, (slot, tgt) in enumerate(bigs):
         for unique in (False, True):
             cf = cfgd(slot, unique, (bi + int(unique)) % 2 == 0)
@@ -199,17 +202,19 @@ def c17_jobs(c, programs):
     return jobs
 
 
-def program_jobs(programs, slots):
+def program_jobs(programs, slots, drop=()):
     jobs = []
     for pi, b in enumerate(programs):
+        prog = [o for o in b["prog"] if o["op"] not in drop]
         for slot in slots:
             for lb in (False, True):
                 cf = cfgd(slot, b["unique"], lb, b["gran"])
-                jobs.append(dict(family="tlcsim", name="tlcsim/%s/%d" % (cname(cf), pi), kind="program", cfg=cf, program=b["prog"]))
+                jobs.append(dict(family="tlcsim", name="tlcsim/%s/%d" % (cname(cf), pi), kind="program", cfg=cf, program=prog))
     return jobs
 
 
 def c18_jobs(c, programs):
+    """Search and scan calls only where the property speaks; key updates (C17's business) are left out."""
     q = c.quick
     jobs = hand_jobs()[:2]
     slots = [2, 4, 8, 24, 5] if q else ALL_SLOTS
@@ -223,21 +228,26 @@ def c18_jobs(c, programs):
                     # stored keys are even, so odd probes fall between keys; duplicates are heavy in non-unique stores
                     jobs.append(dict(family="probe", name="probe/%s/%d" % (cname(cf), i), kind="probe", cfg=cf,
                                      seed=seed_for(c, "probe", cname(cf), i), lo=2, step=2,
-                                     keys=(2 * t if unique else 6 + (i * 3) % 7), target=t,
-                                     probes=c.pick(12, 18), pairs=c.pick(50, 140), window=c.pick(3, 5)))
-    # exhaustive: every tree reached by <= 2 calls behind the prefixes, every search call after it is in the alphabet
+                                     keys=(2 * t if unique else 6 + (i * 3) % 7), target=t, nokeyupd=True,
+                                     probes=c.pick(10, 18), pairs=c.pick(36, 140), window=c.pick(3, 5)))
+    # exhaustive: every tree one call away from the prefix trees, then every search / range call of the alphabet
+    search = []
+    for k in (0, 1, 2, 3, 4):
+        search += [op("Find", k, first=True), op("Find", k, first=False), op("FindInDescendingOrder", k),
+                   op("RangeAsc", k, 3), op("RangeDesc", k, 1)]
+    change = [op("Add", 1), op("Add", 3), op("Remove", 1), op("Remove", 3), op("Next"), op("Previous"), op("RemoveCurrentItem")]
     for unique in (False, True):
         for lb in (False, True):
             cf = cfgd(2, unique, lb)
-            alpha = []
-            for k in (0, 1, 2, 3, 4):
-                alpha += [op("Find", k, first=True), op("Find", k, first=False), op("FindInDescendingOrder", k),
-                          op("RangeAsc", k, 3), op("RangeDesc", k, 1)]
-            alpha += [op("Add", 1), op("Add", 3), op("Remove", 1), op("Remove", 3), op("Next"), op("Previous"), op("RemoveCurrentItem")]
-            for pn in (("deep", "holes") if q else ("empty", "split", "deep", "holes")):
+            if q:
+                pns = ("holes",) if lb else ("deep",)
+            else:
+                pns = ("empty", "split", "deep", "holes")
+            for pn in pns:
+                levels = [change, search + change] if q else [search + change, search + change]
                 jobs.append(dict(family="explore", name="explore/%s/%s" % (cname(cf), pn), kind="explore", cfg=cf,
-                                 prefix=PREFIXES[pn], alphabet=alpha, depth=2))
-    jobs += program_jobs(programs, [2, 4] if q else [2, 4, 6])
+                                 prefix=PREFIXES[pn], levels=levels))
+    jobs += program_jobs(programs, [2, 4] if q else [2, 4, 6], drop=("UpdateCurrentKey", "UpdateCurrentItem"))
     return jobs
 
 
@@ -359,20 +369,35 @@ def classify(rej):
         return ("D2:%s:panic-order-changing-key-empty-item-cache" % kind,
                 "%s(%d) with a key of different order panics (nil btree.currentItem in the error message) after a refused Add left the cursor on the existing item"
                 % (kind, ev["k"]), True)
-    if kind in ("Observe", "ScanFwd", "ScanBwd") and prev is not None and prev["ev"] in ("Add", "AddIfNotExist", "Upsert") \
-            and prev["r"] == "true" and setup.get("lb"):
-        seq = ev.get("seq") or []
-        ks = [x["k"] // gran for x in seq]
-        if kind == "ScanBwd":
-            ks = ks[::-1]
-        if any(x.get("id") == 0 for x in seq):
+    adds = ("Add", "AddIfNotExist", "Upsert")
+    why = ev.get("why", "")
+    if not ev.get("sane", True) and setup.get("lb") and kind in adds and ev["r"] == "true":
+        if "nil ID" in why:
             return ("D3:lb=on:phantom-empty-slots-after-split-of-leaf-in-unbalanced-branch",
-                    "after %s(%d) the scan returns an item with zero key and nil id (%d items for Count()=%d): addOnLeaf's 'unbalanced branch' split does not reset node.Count"
-                    % (prev["ev"], prev["k"], len(seq), ev.get("cnt", -1)), False)
-        if ks != sorted(ks) and len(seq) == ev.get("cnt"):
+                    "after %s(%d) a node keeps Count = slot length although all but one item moved to two new children: scans return "
+                    "phantom items with zero key and nil id (addOnLeaf's 'unbalanced branch' split does not reset node.Count)"
+                    % (kind, ev["k"]), False)
+        if "out of order" in why or "relative order" in why:
             return ("D4:lb=on:item-misplaced-by-distribution-to-sibling-with-nil-child",
-                    "after %s(%d) the items are no longer in key order: load balancing moved a separator into a nil-child position that is not at the end of the sibling the item came from"
-                    % (prev["ev"], prev["k"]), False)
+                    "after %s(%d) the items are no longer in key order (%s): load balancing handed an item to an inner sibling and "
+                    "attached it at its first nil child, wherever that is" % (kind, ev["k"], why), False)
+    if kind == "Observe" and setup.get("lb") and prev is not None and prev["ev"] in adds and prev["r"] == "true":
+        # the same defect when the displaced item lands among items with an equal key: the walk is still in key order,
+        # but the Add has changed the relative order of items that were there before
+        before = next((e for e in reversed(evs[:i - 1]) if e["ev"] == "Observe"), None)
+        if before is not None:
+            new_ids = set(prev.get("aff") or [])
+            rest = [x for x in (ev.get("seq") or []) if x["id"] not in new_ids]
+            same_set = sorted(x["id"] for x in rest) == sorted(x["id"] for x in before["seq"])
+            if same_set and rest != before["seq"] and len(ev["seq"]) == ev.get("cnt"):
+                return ("D4:lb=on:item-misplaced-by-distribution-to-sibling-with-nil-child",
+                        "%s(%d) changed the relative order of items stored before (an item moved among items with an equal key): load "
+                        "balancing handed an item to an inner sibling and attached it at its first nil child" % (prev["ev"], prev["k"]), False)
+    if not ev.get("sane", True):
+        cls = re.sub(r"[0-9a-f]{8}-[0-9a-f-]{27}", "<id>", why)
+        cls = re.sub(r"-?\d+", "N", cls)
+        return ("rejected:%s:structure:%s:%s" % (kind, cls.replace(" ", "-")[:80], conf),
+                "after %s(%s) the node structure is unsound: %s (%s, slot length %s)" % (kind, ev.get("k"), why, conf, setup.get("slot")), False)
     extra = ""
     if kind in ("Observe", "ScanFwd", "ScanBwd"):
         seq = ev.get("seq") or []
@@ -390,7 +415,7 @@ def classify(rej):
     return sig, what, False
 
 
-def report_all(c, rejections, limit=12):
+def report_all(c, rejections, limit=3):
     """c.report for every rejection; returns the traces that may be validated again with finding actions enabled."""
     again, seen = [], collections.Counter()
     for x in rejections:
